@@ -382,12 +382,6 @@ func (r *Reconciler) Reconcile(ctx context.Context, req reconcile.Request) (reco
 			maxRevision = revisionNum
 		}
 
-		// Set oldest revision to the lowest numbered revision and
-		// record its index.
-		if revisionNum < oldestRevision {
-			oldestRevision = revisionNum
-			oldestRevisionIndex = index
-		}
 		// If revision name is same as current revision, then revision
 		// already exists.
 		if rev.GetName() == p.GetCurrentRevision() {
@@ -395,6 +389,15 @@ func (r *Reconciler) Reconcile(ctx context.Context, req reconcile.Request) (reco
 			// Finish iterating through all revisions to make sure
 			// all non-current revisions are inactive.
 			continue
+		}
+
+		// Set oldest revision to the lowest numbered non-current
+		// revision and record its index. The current revision is never
+		// eligible for garbage collection, even if it is the lowest
+		// numbered one (e.g. after a rollback).
+		if revisionNum < oldestRevision {
+			oldestRevision = revisionNum
+			oldestRevisionIndex = index
 		}
 		if rev.GetDesiredState() == v1.PackageRevisionActive {
 			// If revision is not the current revision, set to
@@ -420,6 +423,7 @@ func (r *Reconciler) Reconcile(ctx context.Context, req reconcile.Request) (reco
 	// Check to see if there are revisions eligible for garbage collection.
 	if p.GetRevisionHistoryLimit() != nil &&
 		*p.GetRevisionHistoryLimit() != 0 &&
+		oldestRevisionIndex >= 0 &&
 		len(revisions) > (int(*p.GetRevisionHistoryLimit())+1) {
 		gcRev := revisions[oldestRevisionIndex]
 		// Find the oldest revision and delete it.
